@@ -46,6 +46,7 @@ class HarnessError(Exception):
 # worker side
 # ----------------------------------------------------------------------------
 _W = {}
+_HIST = []      # every run index this worker process has executed so far, in order
 
 
 def _work(chunk):
@@ -63,6 +64,7 @@ def _work(chunk):
         with open(inflight, 'w') as f:
             f.write('%d\n' % idx)
         faulthandler.dump_traceback_later(hang_s, exit=True)
+        _HIST.append(idx)
         try:
             case = engine.generate(prop, seed, tier, idx)
             res = engine.execute(case)
@@ -80,9 +82,9 @@ def _work(chunk):
         out['digests'].append((idx, res['digest'][:16]))
         if res.get('violation'):
             if len(out['violations']) < 8:
-                out['violations'].append((idx, case, res['violation']))
+                out['violations'].append((idx, case, res['violation'], list(_HIST)))
             else:
-                out['violations'].append((idx, None, res['violation']))
+                out['violations'].append((idx, None, res['violation'], None))
         elif idx < 2:
             out['samples'].append(engine.sample(case))
         if res.get('violation') and res['violation']['oracle'] in ('stall', 'hang'):
@@ -150,12 +152,53 @@ def confirm_replay(path, oracle, timeout=600):
     return ok, p.stdout[-2000:]
 
 
+def _confirm_with_history(engine, prop, tier, seed, idx, v, hist):
+    '''
+    Find a short sequence of earlier runs of the same worker after which run `idx` fails in a fresh process with
+    the same oracle.  Returns the path of a history replay file, or None.
+    '''
+    if not hist or hist[-1] != idx:
+        return None
+    earlier = hist[:-1]
+
+    def attempt(indices, tag):
+        os.makedirs(OUT, exist_ok=True)
+        path = os.path.join(OUT, '%s-s%d-r%d-%s-history%s.replay.json' % (prop, seed, idx, _slug(v['oracle']), tag))
+        doc = {'property': prop, 'engine': engine.name, 'violation': v,
+               'history': {'tier': tier, 'seed': seed, 'indices': list(indices)}}
+        with open(path, 'w') as f:
+            json.dump(doc, f, indent=1, sort_keys=True, default=str)
+        ok, _ = confirm_replay(path, v['oracle'], timeout=900)
+        return path if ok else None
+
+    window = None
+    w = 1
+    while True:
+        cand = earlier[-w:] + [idx]
+        p = attempt(cand, '')
+        if p:
+            window = cand
+            break
+        if w >= len(earlier) or w >= 4096:
+            return None
+        w *= 2
+    best = window
+    # try single predecessors, most recent first (the usual case: one earlier metamodel poisons the next)
+    for j in reversed(window[:-1][-24:]):
+        if attempt([j, idx], ''):
+            best = [j, idx]
+            break
+    return attempt(best, '')
+
+
 def replay_main(engines, path):
     with open(path) as f:
         doc = json.load(f)
     engine = engines[doc['engine']]
     prop = doc['property']
     build.prepare()
+    if 'history' in doc:
+        return _replay_history(engine, prop, doc)
     engine.setup(prop, 'replay')
     case = doc['case']
     if os.environ.get('VERIF_CONFIRM'):
@@ -183,6 +226,25 @@ def replay_main(engines, path):
     print('REPRODUCED oracle=hang step=None property=%s' % prop)
     print('  detail: execution did not finish within %.0f s of wall time (killed)' % hard_s)
     return 1
+
+
+def _replay_history(engine, prop, doc):
+    '''a sequence of runs in one (this) fresh process; the verdict is that of the last run'''
+    h = doc['history']
+    engine.setup(prop, h['tier'])
+    engine.plan(prop, h['tier'])
+    res = None
+    for idx in h['indices']:
+        case = engine.generate(prop, simrng.run_seed(h['seed'], prop, idx), h['tier'], idx)
+        res = engine.execute(case)
+    v = res.get('violation') if res else None
+    if v:
+        print('REPRODUCED oracle=%s step=%s property=%s (last of %d runs in one process: %s)'
+              % (v['oracle'], v.get('step'), prop, len(h['indices']), h['indices'][-6:]))
+        print('  detail: %s' % v.get('detail'))
+        return 1
+    print('NOT-REPRODUCED property=%s (sequence of %d runs)' % (prop, len(h['indices'])))
+    return 0
 
 
 def _replay_child(engine, prop, doc, case):
@@ -416,18 +478,18 @@ def _check(engine, prop, tier, seed, jobs, args, t0):
     known_hits = collections.Counter()
     agg['violations'].sort(key=lambda v: v[0])
     by_sig = collections.OrderedDict()
-    for idx, case, v in agg['violations']:
+    for idx, case, v, hist in agg['violations']:
         e = match_known(known, v)
         if e is not None:
             known_hits[e['signature']] += 1
             continue
         if case is None:
             continue
-        by_sig.setdefault((v['oracle'], v.get('signature')), []).append((idx, case, v))
+        by_sig.setdefault((v['oracle'], v.get('signature')), []).append((idx, case, v, hist))
 
     harness_unconfirmed = []
     for (oracle, sig), items in list(by_sig.items())[:3]:
-        idx, case, v = items[0]
+        idx, case, v, hist = items[0]
         print('candidate violation: run=%d oracle=%s step=%s' % (idx, oracle, v.get('step')))
         print('  detail: %s' % v.get('detail'))
         sys.stdout.flush()
@@ -455,7 +517,17 @@ def _check(engine, prop, tier, seed, jobs, args, t0):
                 # budget in a fresh process is a busy machine, not a violation
                 print('  stall candidate not confirmed on re-execution with 3x budget; ignored')
             else:
-                harness_unconfirmed.append((oracle, path, out0))
+                # the run fails only after other runs in the same process: state that the code under test keeps
+                # between metamodels / loaders / parses.  Reproduce it as a *sequence of runs* in a fresh process.
+                hpath = _confirm_with_history(engine, prop, tier, seed, idx, v, hist)
+                if hpath:
+                    print('  the violation needs earlier runs in the same process (state kept by the code under '
+                          'test across runs); replay is a sequence of runs')
+                    print('VIOLATION property=%s replay=%s' % (prop, hpath))
+                    reported.append({'oracle': oracle, 'replay': hpath, 'run': idx, 'signature': v.get('signature'),
+                                     'needs_history': True})
+                else:
+                    harness_unconfirmed.append((oracle, path, out0))
 
     for idx, path in agg.get('hang_reports', []):
         reported.append({'oracle': 'hang', 'replay': path, 'run': idx, 'signature': 'hang'})
